@@ -1257,6 +1257,9 @@ def run(repo, chk, tier):
     from .c20_bins import check_bins_semantics
 
     bins_decided = check_bins_semantics(repo, chk)
+    from .c20_thin import check_grid_unravel
+
+    check_grid_unravel(repo, chk)
     real_violation, real_require = chk.violation, chk.require_count
     notes = []
 
